@@ -9,8 +9,36 @@ GROUPS = [
          refinements=[((SF, "ContentProvider._clean_content"), ("Provider", "_clean_content")),
                       ((SF, "ContentProvider.content"), ("Provider", "content"))]),
 ]
-NOT_CARRIED = ["the stages themselves (Pattern, AllowFilter, Keyword, Password, IPv4, IPv6, Hostname, Mac .parse_line) are one assumed interface "
+NOT_CARRIED = ["determinism of the obfuscators' own parse_line bodies (e.g. iteration over a set of matches inside Hostname.parse_line) is covered by the "
+               "bounded hash-seed stand-in only (labelled bounded)",
+               "the stages themselves (Pattern, AllowFilter, Keyword, Password, IPv4, IPv6, Hostname, Mac .parse_line) are one assumed interface "
                "contract: deterministic in (stage, its state, line, keyword arguments); given that, the output is a function of the stage "
                "list and the lines, and the `deterministic` obligation states that the stage list does not depend on set iteration order",
                "clean_content with a single string instead of a list of lines",
                "'blank' is read as the empty string (a spec of white-space-only lines is kept), see DESIGN.md"]
+
+
+def bounded(check):
+    """bounded stand-in for determinism of the obfuscators' own parse_line bodies (not under contract): real Cleaner, fresh interpreters,
+    several PYTHONHASHSEED values"""
+    import json, os, subprocess
+    n = 8 if check.tier == "quick" else 32
+    here = os.path.dirname(os.path.dirname(os.path.abspath(__file__)))
+    p = subprocess.run(["/venv/bin/python", os.path.join(here, "bounded", "cleaner_determinism.py"), check.repo.root, str(n)],
+                       stdout=subprocess.PIPE, stderr=subprocess.PIPE, universal_newlines=True, timeout=3000)
+    line = (p.stdout.strip().splitlines() or ["{}"])[-1]
+    try:
+        info = json.loads(line)
+    except ValueError:
+        info = {"error": (p.stderr or p.stdout)[-400:]}
+    out = dict(name="the real Cleaner gives identical output under different PYTHONHASHSEED values", level="bounded",
+               bound="3 contents (many peer host names on one line; keyword inside a host name; addresses, MACs, names, password mixed) x %d hash seeds" % n,
+               result=info, violation=(p.returncode == 1), error=(p.returncode not in (0, 1)))
+    if p.returncode == 1:
+        os.makedirs(os.path.join(here, "replays"), exist_ok=True)
+        path = os.path.join(here, "replays", "C10-bounded.json")
+        json.dump(dict(obligation="bounded:cleaner-determinism", witness=info,
+                       replay_cmd="/venv/bin/python %s %s %d" % (os.path.join(here, "bounded", "cleaner_determinism.py"), check.repo.root, n)),
+                  open(path, "w"), indent=1)
+        out["replay"] = path
+    return [out]
